@@ -15,6 +15,9 @@ def main(argv):
         from . import checks  # noqa: F401
         if argv[0] == "replay":
             return engine.replay(os.path.join(engine.VERIF, argv[1]) if not os.path.isabs(argv[1]) else argv[1])
+        if argv[0] == "digests":
+            from . import selftest
+            return selftest.digests(argv[1], argv[2])
         if argv[0] == "selftest":
             from . import selftest
             return selftest.main(argv[1:])
